@@ -305,6 +305,34 @@ def _config(args):
                                 vio("calendars-not-discovered-after-client-properties:%s" % mode, "after calendar-order / colour / name were set on one of two calendars (MKCALENDAR %s, PROPPATCH %s) the walk from %s gives %s" % (r1.status, r2.status, st2, fail3 or res3["found"]), {"calendar": wk})
                                 break
                         written["@found"] = res3["found"] if not fail3 else written.get("@found", last["found"])
+                    if data == "symlinked":
+                        # an administrator keeps a calendar and an address book elsewhere under the data directory and links
+                        # them into the home sets (sharing between users, another volume)
+                        sh = last["homes"]["calendar"].rstrip("/") + "/real-cal/"
+                        sb = last["homes"]["addressbook"].rstrip("/") + "/real-ab/"
+                        r1 = w.request("MKCALENDAR", sh)
+                        r2 = w.request("MKCOL", sb, dav.XML_CT, dav.mkcol_body(resourcetypes=["{DAV:}collection", "{%s}addressbook" % dav.CARD]))
+
+                        def fs(url):
+                            rel = url[len(prefix.rstrip("/")):] if prefix != "/" and url.startswith(prefix.rstrip("/")) else url
+                            return os.path.join(root, rel.strip("/"))
+
+                        ok_links = False
+                        try:
+                            os.symlink(fs(sh), os.path.join(os.path.dirname(fs(sh)), "linked-cal"))
+                            os.symlink(fs(sb), os.path.join(os.path.dirname(fs(sb)), "linked-ab"))
+                            ok_links = True
+                        except OSError:
+                            pass
+                        if ok_links and r1.status == 201 and r2.status == 201:
+                            lc = last["homes"]["calendar"].rstrip("/") + "/linked-cal/"
+                            lb = last["homes"]["addressbook"].rstrip("/") + "/linked-ab/"
+                            for st2 in starts:
+                                res3, fail3 = walk(w, prefix, st2)
+                                stats["walks"] += 1
+                                if fail3 or lc not in res3["found"]["calendar"] or lb not in res3["found"]["addressbook"]:
+                                    vio("linked-collections-not-discovered:%s" % mode, "a calendar / address book linked into the home sets with a symbolic link is not reached by the walk from %s: %s" % (st2, fail3 or res3["found"]), {"calendar": lc, "addressbook": lb})
+                                    break
                     if data == "retyped":
                         # a path in the home set that was a plain collection, was looked at, was deleted, and is now a calendar / address book
                         wk = last["homes"]["calendar"].rstrip("/") + "/work/"
@@ -350,9 +378,10 @@ def run(tier, workers=None):
         grid += [(p, "/user/", m, "proc", 1, "stray") for p in PREFIXES[:2] for m in MODES]
         grid += [(p, "/user/", m, f, 1, "retyped") for p in PREFIXES[:2] for m in MODES for f in ("proc", "wsgimod")]
         grid += [(p, "/user/", m, "proc", 1, "client-props") for p in PREFIXES[:2] for m in MODES]
+        grid += [(p, "/user/", m, "proc", 1, "symlinked") for p in PREFIXES[:2] for m in MODES]
     else:
         grid = list(itertools.product(PREFIXES, PRINCIPALS, MODES, FRONTS, [0, 1, 2], [False, True]))
-        grid += list(itertools.product(PREFIXES, PRINCIPALS, MODES, FRONTS, [1], ["stray", "retyped", "client-props"]))
+        grid += list(itertools.product(PREFIXES, PRINCIPALS, MODES, FRONTS, [1], ["stray", "retyped", "client-props", "symlinked"]))
     # the wsgi-module front mutates os.environ / reloads a module: keep those configurations in their own processes too
     ctx = mp.get_context("fork")
     with ctx.Pool(nw, maxtasksperchild=8) as pool:
